@@ -33,7 +33,8 @@ check('C02', 'exploration',
       'a PRNG decision, with a per-thread reference variable as the oracle for set/with/exception-exit/invalid-backend/bind-time; '
       '(2) generated client programs (mixed dtypes, NaN/Inf on padding batches, aliasing hazards) x client collections x backends '
       'jit/debug/pmap(1..8 devices), run as generator tasks that the scheduler interleaves, closes early or whose batch iterables '
-      'raise, compared result-by-result with the plain Python fold under jax.disable_jit and with bit-exact snapshots of all inputs.',
+      'raise, with the shared input (NumPy, updated in place, or JAX) changed by the caller between calls of the same runner, compared '
+      'result-by-result with the plain Python fold under jax.disable_jit and with bit-exact snapshots of all inputs.',
       'Sampling, not enumeration. Forced host CPU devices stand in for accelerators; pre-emption granularity is a source line.',
       'deterministic simulation: seeded thread scheduler (baton passing + settrace pre-emption) and seeded generator-task scheduler with fault injection; refinement against a sequential reference fold',
       'DESIGN.md 2.4, 4 (C02)')
@@ -74,7 +75,8 @@ check('C10', 'exploration',
       'earlier call later in the history (at-least-once delivery), branch from an already used state, and restart (real save_state onto '
       'the simulated file system, all algorithm/optimizer/aggregator objects rebuilt, load_state, history continued on both copies). '
       'Oracles: bit-identical retry (state and diagnostics), deep value snapshot of the argument state before/after every call (dict keys, '
-      'list lengths, leaf bytes, readability), restored copy continued by fresh objects agrees with the original.',
+      'list lengths, leaf bytes, readability), restored copy continued by fresh objects agrees with the original, and - at a quarter of '
+      'the applies - the same call repeated by freshly built objects on a serialised copy agrees with the long-lived objects.',
       'Sampling over algorithms, hyper-parameters, populations and histories; batch seed fixed (seed=None is documented as re-randomising).',
       'deterministic simulation: seeded history machine with retry/branch/restart faults; purity and value-snapshot oracles',
       'DESIGN.md 2.5, 4 (C10)')
@@ -104,7 +106,8 @@ check('C11', 'exploration',
       'seed and the CompressionState is threaded through 3-50 rounds (2000 for the unbiasedness histories in the thorough tier) with '
       'retry and pickle-restart faults; monitors every round: finiteness/structure, grid membership (uniform, TernGrad), distance of the '
       'aggregate to the exact weighted mean (step / s / rotated norm bound), pass-through of on-grid, constant and zero leaves, fresh '
-      'randomness across clients (cohort [A] vs [A,A] from one state) and across rounds (repeated cohort; key never repeats), running '
+      'randomness across clients (cohort [A] vs [A,A] from one state; large cohorts of 66-260 identical clients with zero weights selecting '
+      'one position at a time, over three consecutive states) and across rounds (repeated cohort; key never repeats), running '
       'mean within a Hoeffding radius at delta 1e-12, and bit accounting by the documented formula.',
       'Statistical clauses are decided up to the stated radius; a bias below it (e.g. > vs >=) is invisible. Grid membership is not '
       'observable for the rotated/DRIVE quantizers without their internal keys.',
